@@ -7,7 +7,7 @@ set -u
 name=$1; patch=$2; shift 2
 checks=${*:-C01 C02 C03 C04 C05 C06 C07 C08 C09 C10 C11 C12 C13 C14 C15 C16 C17 C18 C19 C20}
 export GOFLAGS=-mod=mod GOPROXY=off GOSUMDB=off GOTOOLCHAIN=local
-S=/tmp/mutants/$name
+S=${MUTANT_ROOT:-/tmp/mutants}/$name
 rm -rf "$S"; mkdir -p "$S"
 git -C /repo archive HEAD | tar -x -C "$S" -f - --one-top-level=repo
 case "$patch" in
@@ -26,5 +26,5 @@ for id in $checks; do
   if grep -aq "^VIOLATION property=$id" "$S/$id.log"; then det="$det $id"; elif [ $rc -ne 0 ]; then miss="$miss $id(rc=$rc)"; else miss="$miss $id"; fi
 done
 echo "$name: $suite DETECTED:[$det ] silent:[$miss ]"
-mkdir -p /tmp/mutants/logs; for id in $checks; do if grep -aq "^VIOLATION" "$S/$id.log"; then grep -a -A2 -m1 "^VIOLATION" "$S/$id.log" | cut -c1-300 > /tmp/mutants/logs/$name.$id.txt; fi; done
+mkdir -p ${MUTANT_ROOT:-/tmp/mutants}/logs; for id in $checks; do if grep -aq "^VIOLATION" "$S/$id.log"; then grep -a -A2 -m1 "^VIOLATION" "$S/$id.log" | cut -c1-300 > ${MUTANT_ROOT:-/tmp/mutants}/logs/$name.$id.txt; fi; done
 rm -rf "$S"
